@@ -368,7 +368,8 @@ Canon(ent) == ExportParse(ent, TRUE, TRUE)
 \* caption, type, read-only flag, default (spawnflags: the flag list instead),
 \* per input/output name and type, and the resources.  Descriptions, helpers,
 \* the report flag and the explicit keyvalue order are not stored; an entity
-\* without bases is based on the root definition when loaded.
+\* without bases (other than the root definition itself) is based on the root
+\* definition when loaded.
 BinKV(kv) ==
     [kv EXCEPT !.desc = "", !.rep = FALSE, !.custom = FALSE,
                !.type = IF kv.custom THEN "string" ELSE @,
@@ -382,7 +383,7 @@ BinRepresentable(ent) ==
     /\ \A k \in 1..Len(ent.outs) : ent.outs[k].tags = <<>>
 BinDecay(ent, root) ==
     [ent EXCEPT
-        !.bases = IF @ = <<>> THEN <<root>> ELSE @,
+        !.bases = IF @ = <<>> /\ ent.cls # root THEN <<root>> ELSE @,
         !.helpers = <<>>, !.desc = "", !.order = <<>>,
         !.kvs = [k \in 1..Len(ent.kvs) |-> BinKV(ent.kvs[k])],
         !.ins = [k \in 1..Len(ent.ins) |-> BinIO(ent.ins[k])],
